@@ -216,6 +216,45 @@ func TestVerifC12(t *testing.T) {
 		r.Eval(fmt.Sprintf("testpriv:len=%d", l))
 	}
 
+	// ---- key generation from fresh goroutines at EVERY STACK DEPTH of a sweep, with sources that use a lot of stack in
+	//      their first Read or none at all: the candidate buffer must follow the stack wherever it moves
+	{
+		// (the model's answers are computed before the sweep: a stack the model has already grown does not move again)
+		type st struct {
+			stream []byte
+			d, x   []byte
+		}
+		var sts []st
+		for _, first := range [][]byte{nil, ref.B32(nm1), make([]byte, 32), ref.B32(nI)} {
+			stream := append(append(append([]byte{}, first...), ref.B32(randScalar(rng))...), rng.Bytes(32)...)
+			m := ref.SM2KeyGen(stream)
+			sts = append(sts, st{stream, ref.B32(m.D), ref.B32(m.Pub.X)})
+		}
+		hk.AtStackDepths(hk.N(700, 2000), 96<<10, 8, func(depth int) {
+			s0 := sts[depth%len(sts)]
+			src := &stackHungryReader{inner: newScript(s0.stream), hungry: depth%3 == 0}
+			priv, x, _, err := GenerateKey(src)
+			if err != nil || !bytes.Equal(priv, s0.d) || !bytes.Equal(x, s0.x) {
+				r.Violation("generatekey-wrong-when-the-stack-grows-inside-the-call", hk.D{"stack_depth_frames": depth, "stream": hk.Hex(s0.stream), "priv": hexOrNil(priv), "model_d": hk.Hex(s0.d), "err": errStr(err), "source_uses_stack": depth%3 == 0})
+			}
+		})
+		r.EvalN("genkey:stack-depth-sweep", hk.N(700, 2000))
+		// a source that hands the buffer to a WORKER goroutine and delivers in pieces, with a garbage collection (stack
+		// shrink of the parked caller) between the pieces; the caller comes from a deep call chain
+		for i := 0; i < hk.N(10, 60); i++ {
+			s0 := sts[i%len(sts)]
+			var priv, x []byte
+			var err error
+			h := newHandoffReader(newScript(s0.stream), []int{16, 8, 31, 1}[i%4])
+			afterLargeStack([]int{150, 400, 1200, 60}[(i/4)%4], func() { priv, x, _, err = GenerateKey(h) })
+			h.Close()
+			if err != nil || !bytes.Equal(priv, s0.d) || !bytes.Equal(x, s0.x) {
+				r.Violation("generatekey-wrong:source-fills-the-buffer-from-another-goroutine", hk.D{"stream": hk.Hex(s0.stream), "priv": hexOrNil(priv), "model_d": hk.Hex(s0.d), "err": errStr(err)})
+			}
+			r.Eval("genkey:source:worker-goroutine-fills-the-buffer")
+		}
+	}
+
 	// ---- values from the LIMB GRID around n - 1 (each limb 0, limb - 1, limb, limb + 1, all ones): the private-key test,
 	//      derivation and key generation must draw the line exactly at n - 2
 	{
